@@ -154,6 +154,10 @@ func Unset(doc Doc, path string) interface{} {
 	return res
 }
 
+// maxArrayBackfill is the maximum number of nil elements that are added to an
+// array to reach the index that is written to.
+const maxArrayBackfill = 1500000
+
 func put(v interface{}, path string, value interface{}, prepend bool, set func(interface{})) (interface{}, bool) {
 	// check path
 	if path == PathEnd {
@@ -227,6 +231,11 @@ func put(v interface{}, path string, value interface{}, prepend bool, set func(i
 
 		// check if unset
 		if value == Missing {
+			return Missing, false
+		}
+
+		// limit the number of elements that are filled in (as MongoDB does)
+		if index-len(arr) > maxArrayBackfill {
 			return Missing, false
 		}
 
